@@ -1,144 +1,182 @@
 ------------------------- MODULE QTemplateParseImpl -------------------------
-(* Implementation specification (I) for C01: the push-down discipline of the *)
-(* tag scanner TemplateCore::parse (Template.hpp) over token classes.        *)
-(* State: the containers of tag records built so far, the stack              *)
-(* parent_storage, the current container `cur`, the innermost open loop      *)
-(* `ltag`, the flag is_child.  One action per `case` of the scanner's switch; *)
-(* whatever depends on the text between tokens (is the '>' / closing quote   *)
-(* there, is the attribute name right) is a nondeterministic choice.         *)
-(* TLC explores every token sequence up to MaxLen and checks that            *)
-(*   OwnerOnTop       the last record of the container on top of the stack   *)
-(*                    owns the container the scanner is working in           *)
-(*   KindChecked      a record is only reinterpreted as the kind it was      *)
-(*                    created as (every cast site)                           *)
-(*   LoopTagLive      the innermost-loop pointer refers to a record that has *)
-(*                    not been destroyed (dropped together with its owner)   *)
-(*   AllClosedAtEnd   after the final clean-up every remaining record has    *)
-(*                    its end offset set                                     *)
-(* Every sequence is also exported (E3) and concretized by checks/C01.py.    *)
+(* Implementation specification (I) for C01 / C16: the push-down discipline  *)
+(* of the tag scanner TemplateCore::parse (Template.hpp) over the tokens its *)
+(* switch dispatches.  One action per `case` of the switch; whatever depends *)
+(* on the text between tokens (is the '>' / closing quote / attribute name   *)
+(* there) is a nondeterministic choice.                                      *)
+(*                                                                           *)
+(* State (the scanner's locals):                                             *)
+(*   conts   container id -> sequence of tag records (an Array<TagBit>);     *)
+(*           container 1 is the caller's tags_cache.  A destroyed container  *)
+(*           is Freed.  The case containers of an <if> live inside the       *)
+(*           Cases array and MOVE when a case is added (the old ids become   *)
+(*           Freed); all other containers live inside heap-allocated tag     *)
+(*           structs and never move.                                         *)
+(*   ps      parent_storage (stack of container ids);  cur = storage         *)
+(*   ltag    loop_tag: id of the heap LoopTag (0 = null); child = is_child   *)
+(*   nid     next record id; ids grow with the text offset of the tag        *)
+(*   phase   "scan" -> "end" (text consumed, unfinished tags dropped)        *)
+(*                                                                           *)
+(* TLC explores every token sequence up to MaxLen and checks                 *)
+(*   NoBad          no null dereference: Last() of an empty container        *)
+(*   PsLive         storage and every stack entry refer to live containers   *)
+(*   ChainLive      loop_tag and every Parent reachable from it are live     *)
+(*                  loop records (checkLoopVariable walks that chain)        *)
+(*   AllClosedAtEnd after the clean-up every remaining record has its end    *)
+(*                  offset set (the renderer trusts it)                      *)
+(*   LoopsEnclose   a record that consulted loop_tag ends up inside every    *)
+(*                  loop whose level it may have copied (the renderer        *)
+(*                  indexes loops_items_ by that level)                      *)
+(*   LevelIsDepth   a surviving loop's Level is the number of containers     *)
+(*                  between it and the root                                  *)
+(* The same actions are driven by traces recorded from the real scanner      *)
+(* through hook H2 (TraceQTemplateParse.tla).                                *)
 EXTENDS Naturals, Sequences, FiniteSets, TLC
 
-CONSTANTS MaxLen
-Tokens == {"VAR", "RAW", "MATH", "SVAR", "IIF", "LOOP", "LOOPEND", "IF", "IFEND", "ELSE", "CLOSE", "TEXT"}
+CONSTANTS MaxLen, Fuel,
+          Variant     \* "current", or one of the scanner's earlier behaviours, kept to show that the invariants reject them:
+                      \*   "else-keeps-loop"   (before 5d411ff) a bad <else dropped the <if> and left loop_tag alone
+                      \*   "loopend-any-kind"  (before fee8705) </loop> reinterpreted whatever record was on top as a loop
 
-VARIABLES toks,    \* tokens consumed so far (the exported vector)
-          conts,   \* container id -> Seq(record); container 1 is the root tags_cache
-          ps, cur, child, ltag, bad, pending, done
-vars == <<toks, conts, ps, cur, child, ltag, bad, pending, done>>
-\* record: [k, closed, sub (container it owns, 0 = none), parent (loop record ref), home]  ; a ref is <<container, index>>
-NoRef == <<0, 0>>
-Rec(k, sub, parent) == [k |-> k, closed |-> FALSE, sub |-> sub, parent |-> parent]
+VARIABLES conts, ps, cur, child, ltag, nid, bad, phase, n
+vars == <<conts, ps, cur, child, ltag, nid, bad, phase, n>>
+
+Rec(id, k, closed, subs, parent, level, lt) == [id |-> id, k |-> k, closed |-> closed, subs |-> subs, parent |-> parent, level |-> level, lt |-> lt]
 Top(s) == s[Len(s)]
 Pop(s) == SubSeq(s, 1, Len(s) - 1)
 Last(c) == conts[c][Len(conts[c])]
-NewId == Len(conts) + 1
-Freed == <<[k |-> "freed", closed |-> TRUE, sub |-> 0, parent |-> NoRef]>>
+FreedRec == Rec(0, "freed", TRUE, <<>>, 0, 0, 0)
+Freed == <<FreedRec>>
+Range(s) == {s[i] : i \in 1..Len(s)}
+
 RECURSIVE Owned(_, _, _)
-\* containers owned (transitively) by record r
-Owned(cs, r, fuel) == IF r.sub = 0 \/ fuel = 0 THEN {} ELSE {r.sub} \cup UNION {Owned(cs, cs[r.sub][i], fuel - 1) : i \in 1..Len(cs[r.sub])}
-\* dropping the last record of container c destroys the record and everything it owns: their containers become <<"freed">>
-DropLast(cs, c) == LET r == cs[c][Len(cs[c])]  gone == Owned(cs, r, 8) IN
+\* containers owned (transitively) by record r in the container table cs
+Owned(cs, r, fuel) == IF fuel = 0 THEN {} ELSE Range(r.subs) \cup UNION {UNION {Owned(cs, cs[s][i], fuel - 1) : i \in 1..Len(cs[s])} : s \in Range(r.subs)}
+\* Drop(1): destroys the last record of c and everything it owns
+DropLast(cs, c) == LET r == cs[c][Len(cs[c])]  gone == Owned(cs, r, Fuel) IN
                    [i \in 1..Len(cs) |-> IF i = c THEN SubSeq(cs[c], 1, Len(cs[c]) - 1) ELSE IF i \in gone THEN Freed ELSE cs[i]]
+SetLast(cs, c, r) == [cs EXCEPT ![c][Len(cs[c])] = r]
 
-RECURSIVE Surviving(_, _, _)
-\* the innermost loop reference, starting from r, whose record is not inside one of the destroyed containers
-Surviving(r, gone, fuel) == IF r = NoRef \/ fuel = 0 THEN NoRef ELSE IF r[1] \in gone THEN Surviving(conts[r[1]][r[2]].parent, gone, fuel - 1) ELSE r
-Init == /\ toks = <<>> /\ conts = << <<>> >> /\ ps = <<>> /\ cur = 1 /\ child = FALSE /\ ltag = NoRef /\ bad = "" /\ pending = "" /\ done = FALSE
+RECURSIVE ReachC(_, _, _)
+\* containers reachable from container c
+ReachC(cs, c, fuel) == IF fuel = 0 THEN {c} ELSE {c} \cup UNION {UNION {ReachC(cs, s, fuel - 1) : s \in Range(cs[c][i].subs)} : i \in 1..Len(cs[c])}
+LiveConts == ReachC(conts, 1, Fuel)
+LiveRecs == UNION {Range(conts[c]) : c \in LiveConts}
+RecOf(id) == CHOOSE r \in LiveRecs : r.id = id
+IsLiveLoop(id) == \E r \in LiveRecs : r.id = id /\ r.k = "loop"
 
-\* `pending` models the one-token look-ahead of {var: / {raw: (finder.Next() must deliver the closing brace)
-Emit(t) == toks' = Append(toks, t)
+Init == /\ conts = << <<>> >> /\ ps = <<>> /\ cur = 1 /\ child = FALSE /\ ltag = 0 /\ nid = 1 /\ bad = "" /\ phase = "scan" /\ n = 0
 
-Text == /\ Emit("TEXT") /\ pending' = "" /\ UNCHANGED <<conts, ps, cur, child, ltag, bad, done>>
+Same(v) == UNCHANGED v
+Insert(r) == [conts EXCEPT ![cur] = Append(@, r)]
 
-VarLike(t) == /\ Emit(t) /\ pending' = "var" /\ UNCHANGED <<conts, ps, cur, child, ltag, bad, done>>
+\* {var: / {raw: / {math:  -- a record without sub-tags when the closing brace is there (and the name is not empty)
+Leaf(k) == \/ /\ conts' = Insert(Rec(nid, k, TRUE, <<>>, 0, 0, ltag)) /\ nid' = nid + 1 /\ Same(<<ps, cur, child, ltag, bad>>)
+           \/ Same(<<conts, ps, cur, child, ltag, nid, bad>>)
 
-Close ==
-    /\ Emit("CLOSE") /\ pending' = ""
-    /\ IF pending = "var"                                  \* completes {var:..} / {raw:..}: a record without sub container
-       THEN /\ conts' = [conts EXCEPT ![cur] = Append(@, [Rec("var", 0, NoRef) EXCEPT !.closed = TRUE])]
-            /\ UNCHANGED <<ps, cur, child, ltag, bad, done>>
-       ELSE IF child /\ ps # <<>>
-       THEN LET c == Top(ps) IN
-            IF conts[c] = <<>> THEN bad' = "Last() of an empty container at '}'" /\ UNCHANGED <<conts, ps, cur, child, ltag, done>>
-            ELSE LET t == Last(c) IN
-                 IF t.k = "svar" THEN /\ conts' = [conts EXCEPT ![c][Len(conts[c])].closed = TRUE]
-                                      /\ cur' = c /\ ps' = Pop(ps) /\ child' = FALSE /\ UNCHANGED <<ltag, bad, done>>
+\* {svar: / {if / <loop / <if  -- a record that owns a container: push the current container, continue inside
+Open(k) ==
+    \/ Same(<<conts, ps, cur, child, ltag, nid, bad>>)                    \* not a tag after all
+    \/ /\ conts' = Append(Insert(Rec(nid, k, FALSE, <<Len(conts) + 1>>, IF k = "loop" THEN ltag ELSE 0, IF k = "loop" THEN Len(ps) ELSE 0, ltag)), <<>>)
+       /\ nid' = nid + 1 /\ ps' = Append(ps, cur) /\ cur' = Len(conts) + 1
+       /\ child' = IF k \in {"svar", "iif"} THEN TRUE ELSE child
+       /\ ltag' = IF k = "loop" THEN nid ELSE ltag
+       /\ Same(bad)
+
+Offending(sub) == \E i \in 1..Len(conts[sub]) : conts[sub][i].k \notin {"var", "math"}
+
+Close ==     \* '}'
+    IF child /\ ps # <<>>
+    THEN LET c == Top(ps) IN
+         IF conts[c] = <<>> THEN bad' = "null tag at '}'" /\ Same(<<conts, ps, cur, child, ltag, nid>>)
+         ELSE LET t == Last(c)  tc == [t EXCEPT !.closed = TRUE] IN
+              /\ Same(<<ltag, nid, bad>>)
+              /\ IF t.k = "svar" THEN /\ conts' = SetLast(conts, c, tc) /\ cur' = c /\ ps' = Pop(ps) /\ child' = FALSE
                  ELSE IF t.k = "iif"
-                 THEN \/ /\ conts' = [conts EXCEPT ![c][Len(conts[c])].closed = TRUE]        \* attributes complete
-                         /\ cur' = c /\ ps' = Pop(ps) /\ child' = FALSE /\ UNCHANGED <<ltag, bad, done>>
-                      \/ /\ UNCHANGED <<conts, ps, cur, child, ltag, bad, done>>               \* the '}' belongs to a sub-tag inside true= / false=: stay in the child
-                      \/ /\ conts' = DropLast(conts, c)                                        \* neither true nor false: the tag is dropped
-                         /\ cur' = c /\ ps' = Pop(ps) /\ child' = FALSE /\ UNCHANGED <<ltag, bad, done>>
-                 ELSE /\ cur' = c /\ ps' = Pop(ps) /\ child' = FALSE /\ UNCHANGED <<conts, ltag, bad, done>>   \* default: nothing to finish
-       ELSE UNCHANGED <<conts, ps, cur, child, ltag, bad, done>>
+                 THEN \/ /\ conts' = SetLast(conts, c, tc) /\ cur' = c /\ ps' = Pop(ps) /\ child' = FALSE            \* attributes read
+                      \/ /\ conts' = DropLast(conts, c) /\ cur' = c /\ ps' = Pop(ps) /\ child' = FALSE              \* neither true= nor false=, or a sub-tag of another kind: dropped
+                      \/ /\ cur' = t.subs[1] /\ ps' = ps /\ child' = TRUE                                            \* the '}' is inside true= / false=: back into the child
+                         /\ \/ conts' = SetLast(conts, c, tc)
+                            \/ /\ Offending(t.subs[1])                                                              \* ... after dropping its last sub-tag
+                               /\ conts' = DropLast(SetLast(conts, c, tc), t.subs[1])
+                 ELSE /\ cur' = c /\ ps' = Pop(ps) /\ child' = FALSE /\ Same(conts)                                 \* any other record: nothing to finish
+    ELSE Same(<<conts, ps, cur, child, ltag, nid, bad>>)
 
-\* {math: consumes up to its closing brace (nested {var:..} are skipped); without one no record is made (repaired code)
-Math == /\ Emit("MATH") /\ pending' = "math" /\ UNCHANGED <<conts, ps, cur, child, ltag, bad, done>>
-MathClose == /\ pending = "math" /\ Emit("CLOSE") /\ pending' = ""
-             /\ conts' = [conts EXCEPT ![cur] = Append(@, [Rec("math", 0, NoRef) EXCEPT !.closed = TRUE])]
-             /\ UNCHANGED <<ps, cur, child, ltag, bad, done>>
+LoopEnd ==   \* </loop>
+    IF Variant = "loopend-any-kind" /\ ltag # 0 /\ ps # <<>> /\ (conts[Top(ps)] = <<>> \/ Last(Top(ps)).k # "loop")
+    THEN bad' = "a record of another kind (or none) is reinterpreted as a loop at </loop>" /\ Same(<<conts, ps, cur, child, ltag, nid>>)
+    ELSE
+    IF ltag # 0 /\ ps # <<>> /\ conts[Top(ps)] # <<>> /\ Last(Top(ps)).k = "loop"
+    THEN LET c == Top(ps)  t == Last(c) IN
+         /\ cur' = c /\ ps' = Pop(ps) /\ ltag' = t.parent /\ Same(<<child, nid, bad>>)
+         /\ \/ conts' = SetLast(conts, c, [t EXCEPT !.closed = TRUE])
+            \/ conts' = DropLast(conts, c)                                    \* '<loop </loop>': not a loop
+    ELSE Same(<<conts, ps, cur, child, ltag, nid, bad>>)
 
-Open(k, t, isLoop) ==      \* a record that owns a sub container: push the current container, continue inside
-    /\ Emit(t) /\ pending' = ""
-    /\ \/ /\ conts' = Append([conts EXCEPT ![cur] = Append(@, Rec(k, NewId, IF isLoop THEN ltag ELSE NoRef))], <<>>)
-          /\ ps' = Append(ps, cur) /\ cur' = NewId
-          /\ child' = IF k \in {"svar", "iif"} THEN TRUE ELSE child
-          /\ ltag' = IF isLoop THEN <<cur, Len(conts[cur]) + 1>> ELSE ltag
-          /\ UNCHANGED <<bad, done>>
-       \/ UNCHANGED <<conts, ps, cur, child, ltag, bad, done>>                                 \* not a tag after all ('>' / quote / name missing)
+IfEnd ==     \* </if>
+    IF ps = <<>> THEN Same(<<conts, ps, cur, child, ltag, nid, bad>>)
+    ELSE IF conts[Top(ps)] = <<>> THEN bad' = "null tag at </if>" /\ Same(<<conts, ps, cur, child, ltag, nid>>)
+    ELSE IF Last(Top(ps)).k = "if"
+    THEN /\ conts' = SetLast(conts, Top(ps), [Last(Top(ps)) EXCEPT !.closed = TRUE])
+         /\ cur' = Top(ps) /\ ps' = Pop(ps) /\ Same(<<child, ltag, nid, bad>>)
+    ELSE Same(<<conts, ps, cur, child, ltag, nid, bad>>)
 
-LoopEnd ==
-    /\ Emit("LOOPEND") /\ pending' = ""
-    /\ IF ltag # NoRef /\ ps # <<>>
-       THEN LET c == Top(ps) IN
-            IF conts[c] = <<>> THEN bad' = "Last() of an empty container at </loop>" /\ UNCHANGED <<conts, ps, cur, child, ltag, done>>
-            ELSE LET t == Last(c) IN
-                 IF t.k = "loop"                                                               \* the kind test of the repaired code
-                 THEN \/ /\ conts' = [conts EXCEPT ![c][Len(conts[c])].closed = TRUE]
-                         /\ cur' = c /\ ps' = Pop(ps) /\ ltag' = t.parent /\ UNCHANGED <<child, bad, done>>
-                      \/ /\ conts' = DropLast(conts, c)                                        \* '<loop </loop>': dropped
-                         /\ cur' = c /\ ps' = Pop(ps) /\ ltag' = t.parent /\ UNCHANGED <<child, bad, done>>
-                 ELSE UNCHANGED <<conts, ps, cur, child, ltag, bad, done>>
-       ELSE UNCHANGED <<conts, ps, cur, child, ltag, bad, done>>
+RECURSIVE Outside(_, _, _)
+\* the repaired bad-else: walk loop_tag back to a loop that starts before the dropped <if>
+Outside(id, ifid, fuel) == IF id = 0 \/ fuel = 0 THEN 0 ELSE IF id > ifid THEN Outside(RecOf(id).parent, ifid, fuel - 1) ELSE id
 
-IfEnd ==
-    /\ Emit("IFEND") /\ pending' = ""
-    /\ IF ps # <<>> /\ conts[Top(ps)] # <<>> /\ Last(Top(ps)).k = "if"
-       THEN /\ conts' = [conts EXCEPT ![Top(ps)][Len(conts[Top(ps)])].closed = TRUE]
-            /\ cur' = Top(ps) /\ ps' = Pop(ps) /\ UNCHANGED <<child, ltag, bad, done>>
-       ELSE IF ps # <<>> /\ conts[Top(ps)] = <<>> THEN bad' = "Last() of an empty container at </if>" /\ UNCHANGED <<conts, ps, cur, child, ltag, done>>
-       ELSE UNCHANGED <<conts, ps, cur, child, ltag, bad, done>>
+Else ==      \* <else ...
+    IF ps = <<>> THEN Same(<<conts, ps, cur, child, ltag, nid, bad>>)
+    ELSE IF conts[Top(ps)] = <<>> THEN bad' = "null tag at <else" /\ Same(<<conts, ps, cur, child, ltag, nid>>)
+    ELSE IF Last(Top(ps)).k = "if"
+    THEN LET c == Top(ps)  t == Last(c)  k == Len(t.subs)  base == Len(conts) IN
+         \/ \* Cases.Insert moves the existing case containers; continue in the new one
+            /\ conts' = [i \in 1..(base + k + 1) |->
+                            IF i = c THEN [conts[c] EXCEPT ![Len(conts[c])].subs = [j \in 1..(k + 1) |-> base + j]]
+                            ELSE IF i \in Range(t.subs) THEN Freed
+                            ELSE IF i <= base THEN conts[i]
+                            ELSE IF i <= base + k THEN conts[t.subs[i - base]] ELSE <<>>]
+            /\ cur' = base + k + 1 /\ Same(<<ps, child, ltag, nid, bad>>)
+         \/ \* bad else: the <if> is dropped
+            /\ conts' = DropLast(conts, c) /\ cur' = c /\ ps' = Pop(ps)
+            /\ ltag' = (IF Variant = "else-keeps-loop" THEN ltag ELSE Outside(ltag, t.id, Fuel)) /\ Same(<<child, nid, bad>>)
+    ELSE Same(<<conts, ps, cur, child, ltag, nid, bad>>)
 
-Else ==
-    /\ Emit("ELSE") /\ pending' = ""
-    /\ IF ps # <<>> /\ conts[Top(ps)] # <<>> /\ Last(Top(ps)).k = "if"
-       THEN \/ /\ conts' = Append(conts, <<>>) /\ cur' = NewId /\ UNCHANGED <<ps, child, ltag, bad, done>>          \* a new case: continue in its container
-            \/ /\ conts' = DropLast(conts, Top(ps)) /\ cur' = Top(ps) /\ ps' = Pop(ps)                                      \* bad else: the if is dropped,
-               /\ ltag' = Surviving(ltag, Owned(conts, Last(Top(ps)), 8), 8) /\ UNCHANGED <<child, bad, done>>                  \* and loop_tag moves back to a loop that survives
-       ELSE UNCHANGED <<conts, ps, cur, child, ltag, bad, done>>
-
-\* end of input: unfinished tags are dropped
 RECURSIVE Unwind(_, _)
-Unwind(cs, stack) == IF stack = <<>> THEN cs ELSE Unwind(DropLast(cs, Top(stack)), Pop(stack))
-Finish == /\ ~done /\ done' = TRUE /\ conts' = Unwind(conts, ps) /\ ps' = <<>> /\ cur' = 1
-          /\ UNCHANGED <<toks, child, ltag, bad, pending>>
+Unwind(cs, stack) == IF stack = <<>> THEN cs ELSE Unwind(IF cs[Top(stack)] = <<>> THEN cs ELSE DropLast(cs, Top(stack)), Pop(stack))
+\* end of the text: unfinished tags are dropped
+End == /\ phase = "scan" /\ phase' = "end" /\ conts' = Unwind(conts, ps) /\ ps' = <<>> /\ cur' = IF ps = <<>> THEN cur ELSE ps[1]
+       /\ Same(<<child, ltag, nid, bad, n>>)
 
-Step == /\ ~done /\ Len(toks) < MaxLen /\ bad = ""
-        /\ \/ Text \/ VarLike("VAR") \/ VarLike("RAW") \/ Math \/ MathClose
-           \/ (pending # "math" /\ Close)
-           \/ Open("svar", "SVAR", FALSE) \/ Open("iif", "IIF", FALSE) \/ Open("loop", "LOOP", TRUE) \/ Open("if", "IF", FALSE)
-           \/ LoopEnd \/ IfEnd \/ Else
-Next == Step \/ Finish
+Token(t) == CASE t = "CLOSE" -> Close [] t = "VAR" -> Leaf("var") [] t = "RAW" -> Leaf("var") [] t = "MATH" -> Leaf("math")
+              [] t = "SVAR" -> Open("svar") [] t = "IIF" -> Open("iif") [] t = "LOOP" -> Open("loop") [] t = "LOOPEND" -> LoopEnd
+              [] t = "IF" -> Open("if") [] t = "IFEND" -> IfEnd [] t = "ELSE" -> Else
+Tokens == {"CLOSE", "VAR", "MATH", "SVAR", "IIF", "LOOP", "LOOPEND", "IF", "IFEND", "ELSE"}     \* RAW behaves as VAR
+
+Step == /\ phase = "scan" /\ n < MaxLen /\ bad = "" /\ n' = n + 1 /\ Same(phase)
+        /\ \/ Close \/ Leaf("var") \/ Leaf("math") \/ Open("svar") \/ Open("iif") \/ Open("loop") \/ LoopEnd \/ Open("if") \/ IfEnd \/ Else
+Next == Step \/ End
 Spec == Init /\ [][Next]_vars
 
 \* ------------------------------ invariants ---------------------------------------
 NoBad == bad = ""
-\* the record that owns the container we are in is the last record of the container below it on the stack
-OwnerOnTop == (~done /\ ps # <<>>) => conts[Top(ps)] # <<>>
-RefValid(r) == r = NoRef \/ (r[1] <= Len(conts) /\ conts[r[1]] # Freed /\ r[2] <= Len(conts[r[1]]) /\ conts[r[1]][r[2]].k = "loop")
-LoopTagLive == ~done => RefValid(ltag)
-\* containers reachable from the root
-RECURSIVE Reach(_, _)
-Reach(c, fuel) == IF fuel = 0 THEN {c} ELSE {c} \cup UNION {Reach(conts[c][i].sub, fuel - 1) : i \in {j \in 1..Len(conts[c]) : conts[c][j].sub # 0}}
-AllClosedAtEnd == done => \A c \in Reach(1, MaxLen) : \A i \in 1..Len(conts[c]) : conts[c][i].closed
+PsLive == phase = "scan" => (cur \in LiveConts /\ \A i \in 1..Len(ps) : ps[i] \in LiveConts)
+RECURSIVE Chain(_, _)
+Chain(id, fuel) == id = 0 \/ (fuel > 0 /\ IsLiveLoop(id) /\ Chain(RecOf(id).parent, fuel - 1))
+ChainLive == phase = "scan" => Chain(ltag, Fuel)
+AllClosedAtEnd == phase = "end" => \A r \in LiveRecs : r.closed
+\* ancestors: ids of the records on the way from the root to container c
+RECURSIVE AncPaths(_, _, _)
+AncPaths(c, anc, fuel) == {<<c, anc>>} \cup (IF fuel = 0 THEN {} ELSE
+                          UNION {UNION {AncPaths(s, anc \cup {conts[c][i].id}, fuel - 1) : s \in Range(conts[c][i].subs)} : i \in 1..Len(conts[c])})
+RECURSIVE ChainIds(_, _)
+ChainIds(id, fuel) == IF id = 0 \/ fuel = 0 \/ ~IsLiveLoop(id) THEN {} ELSE {id} \cup ChainIds(RecOf(id).parent, fuel - 1)
+\* at the end, whatever loop a surviving record may have matched is one of its ancestors (or was dropped: then its Level is
+\* not an index the renderer has prepared - it must not have survived while the record did)
+LoopsEnclose == phase = "end" =>
+    \A p \in AncPaths(1, {}, Fuel) : \A i \in 1..Len(conts[p[1]]) :
+        LET r == conts[p[1]][i] IN r.lt # 0 => (IsLiveLoop(r.lt) /\ ChainIds(r.lt, Fuel) \subseteq p[2])
+LevelIsDepth == phase = "end" =>
+    \A p \in AncPaths(1, {}, Fuel) : \A i \in 1..Len(conts[p[1]]) :
+        LET r == conts[p[1]][i] IN r.k = "loop" => r.level = Cardinality(p[2])
 =============================================================================
